@@ -173,6 +173,9 @@ static void run() {
     else if (c == "fillna") { ContentPtr v = pop(); ContentPtr a = pop(); stack.push_back(a.get()->fillna(v)); }
     else if (c == "simplify") { ContentPtr a = pop(); stack.push_back(a.get()->shallow_simplify()); }
     else if (c == "validity") { ContentPtr a = pop(); std::string e = a.get()->validityerror("layout"); printf("OK %s\n", e.empty() ? "\"\"" : ("\"" + e + "\"").c_str()); fflush(stdout); _Exit(0); }
+    else if (c == "depths") { ContentPtr a = pop(); std::pair<int64_t, int64_t> mm = a.get()->minmax_depth(); std::pair<bool, int64_t> bd = a.get()->branch_depth();
+      printf("OK [%lld, %lld, %lld, %d, %lld, %lld]\n", (long long)a.get()->purelist_depth(), (long long)mm.first, (long long)mm.second, (int)bd.first, (long long)bd.second, (long long)a.get()->numfields());
+      fflush(stdout); _Exit(0); }
     else if (c == "length") { ContentPtr a = pop(); printf("OK %lld\n", (long long)a.get()->length()); fflush(stdout); _Exit(0); }
     else if (c == "dup") { ContentPtr a = pop(); stack.push_back(a); stack.push_back(a); }
     else throw std::runtime_error("akrun: unknown command " + c);
